@@ -192,9 +192,9 @@ def run(ctx):
             if rng.random() < 0.1:
                 x = g.string(1, rng.choice([300, 900]), ring_dense=True)
             elif rng.random() < 0.1:
-                x = g.deep(rng.randint(2, 40))
+                x = g.deep(rng.randint(2, 40) if rng.random() < 0.8 else rng.choice([120, 300]))
             else:
-                x = g.string(rng.choice([1, 1, 2, 3, 3, 12, 40]), rng.choice([10, 40, 150, 600]) if rng.random() < 0.8 else 8)
+                x = g.string(rng.choice([1, 1, 2, 3, 3, 12, 40]), rng.choice([10, 40, 150, 600, 600, 2500]) if rng.random() < 0.8 else 8)
             if j.one(x, "G2", flags_too=True) is not None:
                 ctx.count("g2.compared")
 
